@@ -133,8 +133,36 @@ class Bench:
         self.rig.close()
 
 
+REAL_FRAMES = [
+    # captured frames quoted in the repository's tests (state, capabilities x3, properties, energy, humidity)
+    "aa23ac00000000000303c00145660000003c0010045c6800000000000000000000018426",
+    "aa22ac00000000000303c0014566000000300010045cff2070000000000000008bed19",
+    "aa29ac00000000000303b5071202010113020101140201011502010116020101170201001a020101dedb",
+    "aa3dac00000000000303b50a12020101430001011402010115020101160201001a020101100201011f020103250207203c203c203c05400001000100c805",
+    "aa23ac00000000000303b5051e020101130201012202010019020100390001010000febe",
+    "aa21ac00000000000303b10409000001000a00000100150000012b1e020000005fa3",
+    "aa20ac00000000000203c121014400564a02640000000014ae0000000000041a22",
+    "aa20ac00000000000303c12101453f546c005d0a000000de1f0000ba9a0004af9c",
+]
+
+
+def varied_frames():
+    """Valid frames of every kind with varied contents (so that rare arithmetic coincidences are reachable)."""
+    out = [bytes.fromhex(h) for h in REAL_FRAMES]
+    for i in range(48):
+        dev = rich_device()
+        dev.state.update(temp=17.0 + (i % 27) * 0.5, fan=1 + (i * 7) % 101, mode=1 + i % 6, humidity=(i * 13) % 101, power=bool(i & 1),
+                         eco=bool(i & 2), sleep=bool(i & 4), swing=(0, 3, 0xC, 0xF)[i % 4])
+        dev.indoor, dev.outdoor = ((40 + i * 3) & 0xFF, i % 10), ((90 + i * 5) & 0xFF, (i * 3) % 10)
+        dev.report_len = 16 + i % 12
+        out.append(dev.report(0x03 if i % 2 else 0x02, (i * 37) & 0xFF))
+    return out
+
+
 def shards(tier):
     out = []
+    out += [("lenbyte", lo, lo + 8) for lo in range(0, len(varied_frames()), 8)]
+    out += [("same", 0, 0)]
     for k in KINDS + (["state-sum", "props-ack"] if tier == "thorough" else []):
         n = len(valid_frame(k))
         step = 3 if tier == "thorough" else 6
@@ -143,9 +171,86 @@ def shards(tier):
     return out
 
 
+def run_lenbyte(st: Stats, lo, hi):
+    """Every value of the length byte (and of each header byte) of many different valid frames, no fix-up."""
+    frames = varied_frames()[lo:hi]
+    bench = Bench("state")
+    try:
+        for fi, good in enumerate(frames):
+            kind = "caps" if good[10] == 0xB5 else "state"
+            if bench.kind != kind:
+                bench.close()
+                bench = Bench(kind)
+            for pos in range(1, 10):
+                for v in range(256):
+                    if v == good[pos] or (pos != 1 and v % 17):
+                        continue
+                    f = bytearray(good)
+                    f[pos] = v
+                    f = bytes(f)
+                    case = {"kind": "lenbyte", "frame": good, "pos": pos, "value": v}
+                    out, snap, online, supported = bench.step(f)
+                    prob = None
+                    if out[0] != "ok":
+                        prob = f"raised {type(out[1]).__name__}"
+                    elif snap != bench.base:
+                        prob = "state changed"
+                    elif (kind != "caps" and online) or supported:
+                        prob = f"online={online} supported={supported} after only corrupt frames"
+                    if prob:
+                        st.violation(f"header byte {pos} corrupted (no fix-up): {prob.split('=')[0]}", case, "dropped", prob, f.hex())
+                        bench.close()
+                        bench = Bench(kind)
+                    st.ev(("lenbyte", lo + fi, pos, v), "dropped" if not prob else "used", True)
+    finally:
+        bench.close()
+
+
+def run_same(st: Stats):
+    """History: frame X accepted, then X again with one byte of header / check bytes corrupted (no fix-up)."""
+    for variant in range(6):
+        bench = Bench("state")
+        try:
+            dev = rich_device()
+            dev.state.update(temp=20.0 + variant, fan=40 + variant)
+            x = dev.report(0x03, 0x40 + variant)
+            out, snap, online, supported = bench.step(x)            # accepted: becomes the client's state
+            assert out[0] == "ok" and online, "priming frame must be accepted"
+            base = snap
+            n = len(x)
+            for pos in list(range(1, 10)) + [n - 2, n - 1]:
+                for m in (1, 2, 4, 8, 16, 32, 64, 128, 255):
+                    f = bytearray(x)
+                    f[pos] ^= m
+                    f = bytes(f)
+                    if not must_drop(f):
+                        continue
+                    case = {"kind": "same", "variant": variant, "pos": pos, "xor": m}
+                    out, snap, online, supported = bench.step(f)
+                    prob = None
+                    if out[0] != "ok":
+                        prob = f"raised {type(out[1]).__name__}"
+                    elif online or supported:
+                        prob = f"online={online} supported={supported} after a corrupted copy of the previous frame"
+                    elif snap != base:
+                        prob = "state changed"
+                    if prob:
+                        st.violation(f"corrupted copy of the previously accepted frame: {prob.split('=')[0]}", case, "dropped", prob, f.hex())
+                    st.ev(("same", variant, pos, m), "dropped" if not prob else "used", True)
+                    bench.step(x)        # accepted again before the next corrupted copy
+        finally:
+            bench.close()
+
+
 def run_shard(shard, tier) -> Stats:
     kind, lo, hi = shard
     st = Stats()
+    if kind == "lenbyte":
+        run_lenbyte(st, lo, hi)
+        return st
+    if kind == "same":
+        run_same(st)
+        return st
     det = Determinism(first=0, every=10**9)
     good = valid_frame(kind)
     masks = range(1, 256)
@@ -192,6 +297,13 @@ def run_shard(shard, tier) -> Stats:
 
 
 def replay(case):
+    if case["kind"] in ("lenbyte", "same"):
+        st = Stats()
+        if case["kind"] == "same":
+            run_same(st)
+        else:
+            run_lenbyte(st, 0, len(varied_frames()))
+        return sorted(st.viol_counts)
     good = valid_frame(case["kind"])
     f = bytearray(good)
     f[case["pos"]] ^= case["xor"]
